@@ -101,3 +101,51 @@ def check_len_published(ctx, rule):
                    detail="" if not bad else "path %s" % " -> ".join("L%d" % x.lineno for x in bad if x.lineno),
                    analysis="CFG path query")
     ctx.floor(rule, total_exits, 8, "normal exits of rrule._iter and rruleset._iter")
+
+
+def region_function(prog, func, stmts, params, name="_region"):
+    """A synthetic function whose body is a copy of `stmts` (a region of `func`), for analysing that region alone."""
+    import copy
+    from .model import FuncInfo
+    node = ast.FunctionDef(name=name, args=ast.arguments(posonlyargs=[], args=[ast.arg(arg=p) for p in params], kwonlyargs=[], kw_defaults=[], defaults=[]),
+                           body=[copy.deepcopy(s) for s in stmts], decorator_list=[], returns=None, type_comment=None, type_params=[])
+    ast.fix_missing_locations(node)
+    for s, o in zip(node.body, stmts):
+        ast.copy_location(s, o)
+    f = FuncInfo(func.qualname + "." + name, node, func.module, func.cls, func.parent)
+    return f
+
+
+def check_month_carry(ctx, rule, func, region_func, sink_pred, seeds_for, months, shifts, what):
+    """Constant propagation over every (month, shift) class: at the sink the month is ((m-1+k) mod 12)+1 and the year
+    has moved by floor((m-1+k)/12).  The carry code reads the month only through comparisons and div/mod by 12, so
+    these classes cover every input of the clause."""
+    from .ivl import Interp, Val
+    bad = []
+    n = 0
+    sink_src = None
+    for m in months:
+        for k in shifts:
+            it = Interp(ctx.prog, region_func, seeds=seeds_for(m, k)).run()
+            sinks = []
+            for node in it.cfg.live_nodes():
+                if node.kind == "stmt" and node.ast is not None and node.id in it.IN:
+                    for x in ast.walk(node.ast):
+                        if isinstance(x, ast.Call) and sink_pred(x):
+                            sinks.append((node, x))
+            if not sinks:
+                raise AnalysisError(rule, func.qualname, "carry sink not found in the region")
+            total = m - 1 + k
+            want_m, want_y = total % 12 + 1, total // 12
+            n += 1
+            for node, call in sinks:
+                sink_src = src(call)
+                yv = it.value_at(node, call.args[0])
+                mv = it.value_at(node, call.args[1])
+                ok = isinstance(mv, Val) and mv.lo == mv.hi == want_m and isinstance(yv, Val) and yv.base == "Y" and yv.lo == yv.hi == want_y
+                if not ok:
+                    bad.append((m, k, mv, yv, want_m, want_y))
+    ctx.stat(rule + ".classes", n)
+    ctx.ob(rule, func, what, not bad, construct="month/year at %s" % sink_src,
+           detail="" if not bad else "month %d shifted by %+d: month=%r year=%r, expected month %d and year Y%+d (%d of %d classes differ)" % (bad[0] + (len(bad), n)),
+           analysis="constant propagation over a finite partition (month x shift)")
